@@ -619,7 +619,7 @@ func (e *Exec) convert(v Value, from, to types.Type) Value {
 			e.unsupported("convert %s to %s", from, to)
 		}
 		if tu.(*types.Basic).Kind() == types.UnsafePointer {
-			e.unsupported("conversion to unsafe.Pointer")
+			e.unsupported("conversion of integer to unsafe.Pointer")
 		}
 		ff, tf := isFloat(from), isFloat(to)
 		switch {
@@ -676,7 +676,12 @@ func (e *Exec) convert(v Value, from, to types.Type) Value {
 		_ = fu
 		e.unsupported("convert slice to %s", to)
 	case *Ptr:
+		// pointer <-> unsafe.Pointer keeps the referent; the only consumers are stubs
+		// (MessageStateOf) that never look through it
 		if _, ok := tu.(*types.Pointer); ok {
+			return x
+		}
+		if b, ok := tu.(*types.Basic); ok && b.Kind() == types.UnsafePointer {
 			return x
 		}
 		e.unsupported("pointer conversion to %s (unsafe)", to)
